@@ -1112,10 +1112,198 @@ impl SubCheckT for Deep {
     }
 }
 
+// ---------------------------------------------------------------------------
+// SDDs with decision nodes of up to 128 elements: a multiplexer over seven left variables whose cells carry random
+// functions of three right variables
+// ---------------------------------------------------------------------------
+
+#[derive(Clone, Debug, Serialize, Deserialize)]
+pub struct WideSddCase {
+    /// variables under the root's left child (5..=7) and under its right child (3)
+    pub xl: u8,
+    pub seed: u64,
+    /// shape of the left subtree: 0 right-linear, 1 left-linear, 2 balanced
+    pub left_shape: u8,
+}
+
+pub struct WideSdd;
+
+fn run_wide_sdd(case: &WideSddCase, st: &mut Stats) -> CaseResult {
+    use rsdd::repr::VTree;
+    const P: u128 = primes::U64_LARGEST;
+    let xl = (case.xl as usize).clamp(5, 7);
+    let yr = 3usize;
+    let n = xl + yr;
+    fn shape(labels: &[usize], kind: u8) -> VTree {
+        if labels.len() == 1 {
+            return VTree::new_leaf(VarLabel::new_usize(labels[0]));
+        }
+        let at = match kind % 3 {
+            0 => 1,
+            1 => labels.len() - 1,
+            _ => labels.len() / 2,
+        };
+        VTree::new_node(Box::new(shape(&labels[..at], kind)), Box::new(shape(&labels[at..], kind)))
+    }
+    let xs: Vec<usize> = (0..xl).collect();
+    let ys: Vec<usize> = (xl..n).collect();
+    let vt = VTree::new_node(Box::new(shape(&xs, case.left_shape)), Box::new(shape(&ys, 0)));
+    let b = CompressionSddBuilder::new(vt);
+    // the sub of cell i: a random function of the three right variables (8-bit table)
+    let table = |i: usize| -> u8 { (splitmix(case.seed ^ (i as u64).wrapping_mul(0x9E37_79B9_7F4A_7C15)) >> 20) as u8 };
+    let mut ysub: std::collections::BTreeMap<u8, SddPtr> = std::collections::BTreeMap::new();
+    let mut yfn = |t: u8| -> SddPtr {
+        *ysub.entry(t).or_insert_with(|| {
+            let mut f = b.false_ptr();
+            for m in 0..8usize {
+                if (t >> m) & 1 == 1 {
+                    let mut cube = b.true_ptr();
+                    for (j, y) in ys.iter().enumerate() {
+                        cube = b.and(cube, b.var(VarLabel::new_usize(*y), (m >> j) & 1 == 1));
+                    }
+                    f = b.or(f, cube);
+                }
+            }
+            f
+        })
+    };
+    // Shannon expansion over the left variables, deepest first
+    let mut layer: Vec<SddPtr> = (0..(1usize << xl)).map(|i| yfn(table(i))).collect();
+    for v in (0..xl).rev() {
+        let half = 1usize << v;
+        let x = b.var(VarLabel::new_usize(v), true);
+        layer = (0..half).map(|a| b.ite(x, layer[a | half], layer[a])).collect();
+    }
+    let f = layer[0];
+    // the function the diagram denotes, read by the harness's own walk
+    let total = 1usize << n;
+    let bits: Vec<bool> = (0..total).map(|a| crate::big::sdd_eval(f, &(0..n).map(|i| (a >> i) & 1 == 1).collect::<Vec<_>>())).collect();
+    let intended = (0..total).all(|a| bits[a] == ((table(a & ((1 << xl) - 1)) >> (a >> xl)) & 1 == 1));
+    st.flag("wide_sdd.builder_made_another_function(C03's concern)", !intended);
+    let width = match f {
+        SddPtr::Reg(_) | SddPtr::Compl(_) => f.node_iter().count(),
+        _ => 0,
+    };
+    st.flag(
+        match width {
+            0..=32 => "wide_sdd.root_elements.le32",
+            33..=64 => "wide_sdd.root_elements.33-64",
+            _ => "wide_sdd.root_elements.gt64",
+        },
+        true,
+    );
+    let sel = |v: usize, k: u64| splitmix(case.seed ^ 0xABCD ^ ((v as u64) << 16) ^ k);
+    // real
+    let rw = |v: usize, bit: bool| -> f64 {
+        let h = (sel(v, 1) % 9) as f64 / 8.0;
+        if bit {
+            h
+        } else {
+            1.0 - h
+        }
+    };
+    // complex: high = a + bi, low = (1 - a) - bi, eighths and quarters
+    let cw = |v: usize, bit: bool| -> (f64, f64) {
+        let a = ((sel(v, 2) % 17) as f64 - 8.0) / 8.0;
+        let bi = ((sel(v, 3) % 9) as f64 - 4.0) / 4.0;
+        if bit {
+            (a, bi)
+        } else {
+            (1.0 - a, -bi)
+        }
+    };
+    // expected utility: high = (p, u), low = (1 - p, -u)
+    let ew = |v: usize, bit: bool| -> (f64, f64) {
+        let p = (sel(v, 4) % 9) as f64 / 8.0;
+        let u = ((sel(v, 5) % 9) as f64 - 4.0) / 2.0;
+        if bit {
+            (p, u)
+        } else {
+            (1.0 - p, -u)
+        }
+    };
+    let fw = |v: usize, bit: bool| -> u128 {
+        let x = sel(v, 6) as u128 % P;
+        if bit {
+            x
+        } else {
+            (P + 1 - x) % P
+        }
+    };
+    for (name, d, neg) in [("SDD", f, false), ("negated SDD", f.neg(), true)] {
+        let mut want_r = 0f64;
+        let mut want_c = (0f64, 0f64);
+        let mut want_e = (0f64, 0f64);
+        let mut want_f = 0u128;
+        for a in 0..total {
+            if bits[a] == neg {
+                continue;
+            }
+            let mut pr = 1f64;
+            let mut pc = (1f64, 0f64);
+            let mut pe = (1f64, 0f64);
+            let mut pf = 1u128;
+            for v in 0..n {
+                let bit = (a >> v) & 1 == 1;
+                pr *= rw(v, bit);
+                let (x, y) = cw(v, bit);
+                pc = (pc.0 * x - pc.1 * y, pc.0 * y + pc.1 * x);
+                let (q, u) = ew(v, bit);
+                pe = (pe.0 * q, pe.0 * u + pe.1 * q);
+                pf = mulmod(pf, fw(v, bit), P);
+            }
+            want_r += pr;
+            want_c = (want_c.0 + pc.0, want_c.1 + pc.1);
+            want_e = (want_e.0 + pe.0, want_e.1 + pe.1);
+            want_f = (want_f + pf) % P;
+        }
+        let got_r = d.unsmoothed_wmc(&params_of(n, &|v, bit| RealSemiring(rw(v, bit)))).0;
+        ensure!(got_r == want_r, "C07/normalised-count:real(wide sdd)", "{} whose root has {} elements ({} variables): the real count is {}, the sum over models is {}", name, width, n, got_r, want_r);
+        let got_c = d.unsmoothed_wmc(&params_of(n, &|v, bit| {
+            let (re, im) = cw(v, bit);
+            Complex { re, im }
+        }));
+        ensure!(got_c.re == want_c.0 && got_c.im == want_c.1, "C07/normalised-count:complex(wide sdd)", "{} whose root has {} elements: the complex count is {:?}, the sum over models is {:?}", name, width, got_c, want_c);
+        let got_e = d.unsmoothed_wmc(&params_of(n, &|v, bit| {
+            let (p, u) = ew(v, bit);
+            ExpectedUtility(p, u)
+        }));
+        ensure!(got_e.0 == want_e.0 && got_e.1 == want_e.1, "C07/normalised-count:expected-utility(wide sdd)", "{} whose root has {} elements: the expected-utility count is ({}, {}), the sum over models is {:?}", name, width, got_e.0, got_e.1, want_e);
+        let got_f = d.unsmoothed_wmc(&params_of(n, &|v, bit| FiniteField::<P>::new(fw(v, bit)))).value();
+        ensure!(got_f == want_f, "C07/normalised-count:finite-field(wide sdd)", "{} whose root has {} elements: the count over GF(2^64-59) is {}, the sum over models is {}", name, width, got_f, want_f);
+        // evaluate on sampled assignments
+        for k in 0..32u64 {
+            let asg = crate::big::assignment(case.seed ^ 0xE0A1, k, n);
+            let a = asg.iter().enumerate().fold(0usize, |m, (i, x)| if *x { m | 1 << i } else { m });
+            ensure!(d.evaluate(&asg) == (bits[a] != neg), "C07/evaluate", "evaluate() on the {} whose root has {} elements differs from the harness's walk", name, width);
+        }
+    }
+    if width > 32 {
+        st.mark_nontrivial();
+    }
+    Ok(())
+}
+
+impl SubCheckT for WideSdd {
+    type Case = WideSddCase;
+    const NAME: &'static str = "wide_sdd_nodes";
+    const RULE: &'static str = "a multiplexer: 5..7 variables under the root's left child (right-linear, left-linear or balanced) select a cell, each cell carries a random function of the 3 variables under the right child; built by if-then-else on a compressing SDD builder, the root has up to 128 elements (typically about 100 for seven left variables). The diagram and its negation are read back on all assignments by the harness's walk; real, complex, expected-utility (eighths: exact) and GF(2^64-59) counts equal the sum over the models read back; evaluate() agrees on sampled assignments. Non-trivial: a root of more than 32 elements";
+    fn cases(tier: Tier) -> u32 {
+        tier.pick(120, 2400)
+    }
+    fn strategy(_tier: Tier) -> BoxedStrategy<WideSddCase> {
+        (prop_oneof![1 => 5u8..=6, 3 => Just(7u8)], any::<u64>(), 0u8..3).prop_map(|(xl, seed, left_shape)| WideSddCase { xl, seed, left_shape }).boxed()
+    }
+    fn run(case: &WideSddCase, st: &mut Stats) -> CaseResult {
+        WMODE.with(|m| m.set((case.seed >> 11) as u8));
+        run_wide_sdd(case, st)
+    }
+}
+
 pub fn property() -> Property {
     Property {
         id: "C07",
-        subs: vec![sub::<Counts>(), sub::<ProductForm>(), sub::<Deep>()],
+        subs: vec![sub::<Counts>(), sub::<ProductForm>(), sub::<Deep>(), sub::<WideSdd>()],
         fuzz: vec![],
         assumptions: vec![
             "truth-table part: functions over <= 7 variables; sub-check product_form_many_variables: 20..150 labels, functions that factor into blocks of <= 5 variables; sub-check deep_diagrams: chains of up to 1400 literals with one such block",
